@@ -59,12 +59,16 @@ def gen_cases(tier, seed):
 def _run(case, prefix):
     ex = seqx.Explorer(case['capacity'], case['wa'], case['kind'], case.get('init_vd', 0.25),
                        case.get('set_ops', ['Sa', 'Sb']), case.get('max_dev', 2))
-    if 'history' in case:
+    if case.get('history') == ['SIBLINGS']:
+        ex.run_siblings()
+    elif 'history' in case:
         ex.replay(case['history'])
     elif case.get('part') == 'blind' or case.get('blind'):
         ex.run_blind(case.get('max_dev', 1))
     else:
         ex.run()
+    if 'history' not in case:
+        ex.run_siblings()          # several live integrators advanced alternately (every configuration)
     viol = [v for v in ex.viol if v['sig'].startswith(prefix)]
     # one entry per signature is enough (each carries its own minimal history; BFS order
     # means the first one found has the fewest deviations)
